@@ -15,10 +15,12 @@ src = f"/tmp/mut-{prop}/out"
 sid = f"{prop}-{letter}"
 dst = f"/verif/seeded/{sid}"
 os.makedirs(dst, exist_ok=True)
-shutil.copy(f"{src}/{letter}.diff", f"{dst}/patch.diff")
-shutil.copy(f"{src}/demo_{letter}.py", f"{dst}/demo.py")
-notes = open(f"{src}/notes.md").read() if os.path.exists(f"{src}/notes.md") else ""
-open(f"{dst}/notes.md", "w").write(notes)
+if os.path.exists(f"{src}/{letter}.diff"):
+    shutil.copy(f"{src}/{letter}.diff", f"{dst}/patch.diff")
+    shutil.copy(f"{src}/demo_{letter}.py", f"{dst}/demo.py")
+    notes = open(f"{src}/notes.md").read() if os.path.exists(f"{src}/notes.md") else ""
+    open(f"{dst}/notes.md", "w").write(notes)
+# else: re-validate what is already recorded under seeded/
 
 
 def sh(cmd, cwd=None, timeout=1800):
